@@ -3,6 +3,8 @@ package main
 import (
 	"encoding/hex"
 	"fmt"
+	"math"
+	"os"
 	"sort"
 	"strings"
 
@@ -20,7 +22,13 @@ import (
 	"github.com/paulmach/orb/simplify"
 )
 
-func init() { register(&Prop{ID: "C20", Run: runC20, Gen: genC20}) }
+func init() {
+	if os.Getenv(c20WorkerEnv) != "" {
+		c20WorkerMain()
+		os.Exit(0)
+	}
+	register(&Prop{ID: "C20", Run: runC20, Gen: genC20})
+}
 
 // entry is one exported function with an orb.Geometry parameter (or, for mvt, the exported function
 // through which the generic switch `encodeGeometry` is reached).
@@ -39,6 +47,9 @@ type entry struct {
 	// kind (WKB/EWKB only: at top level a typed nil writes no bytes, as a member it is written as the
 	// empty value — fix 968afdb —, so the stand-alone encoding of the nil is not what the collection holds)
 	nilMemberAsEmpty bool
+	// alts: also report the outcome on the equivalent values of the neighbouring kinds (c20Alts); the
+	// relation they must satisfy is the driver's (`altRule`)
+	alts bool
 }
 
 var c20Box = orb.Bound{Min: orb.Point{0, 0}, Max: orb.Point{4, 4}}
@@ -208,8 +219,31 @@ func hexString(s string, err error) string {
 	return s
 }
 
+// lengthEntry: a length function of the geometry interface; the kind-specific counterpart of a line
+// (and of a ring, which is measured as the line of its vertices) is the sum of the EXPORTED distance
+// function over its segments, in the order and with the argument order of internal/length
+func lengthEntry(name string, f func(orb.Geometry) float64, df orb.DistanceFunc) entry {
+	sum := func(ps []orb.Point) string {
+		s := 0.0
+		for i := 1; i < len(ps); i++ {
+			s += df(ps[i], ps[i-1])
+		}
+		return fb(s)
+	}
+	return entry{name: name, readOnly: true, alts: true, combine: "sum", call: func(g orb.Geometry) string { return fb(f(g)) },
+		typed: func(g orb.Geometry) string {
+			switch v := g.(type) {
+			case orb.LineString:
+				return sum(v)
+			case orb.Ring:
+				return sum(v)
+			}
+			return "-"
+		}}
+}
+
 var c20Entries = []entry{
-	{name: "clone", readOnly: true, combine: "map", call: func(g orb.Geometry) string { return gsn(orb.Clone(g)) },
+	{name: "clone", readOnly: true, alts: true, combine: "map", call: func(g orb.Geometry) string { return gsn(orb.Clone(g)) },
 		typed: func(g orb.Geometry) string {
 			switch v := g.(type) {
 			case orb.MultiPoint:
@@ -253,26 +287,33 @@ var c20Entries = []entry{
 			}
 			return "-"
 		}},
-	{name: "bound", readOnly: true, combine: "bound", call: func(g orb.Geometry) string {
+	{name: "bound", readOnly: true, alts: true, combine: "bound", call: func(g orb.Geometry) string {
 		if g == nil {
 			return "nilgeom"
 		}
 		return us(sbound(g.Bound()))
 	}},
 	roundEntry("round", []int{10}),
-	{name: "planar.area", readOnly: true, combine: "sum", call: func(g orb.Geometry) string { return fb(planar.Area(g)) }},
-	{name: "planar.centroid", readOnly: true, combine: "centroid", call: func(g orb.Geometry) string {
+	{name: "planar.area", readOnly: true, alts: true, combine: "sum", call: func(g orb.Geometry) string { return fb(planar.Area(g)) }},
+	{name: "planar.centroid", readOnly: true, alts: true, combine: "centroid", call: func(g orb.Geometry) string {
 		c, a := planar.CentroidArea(g)
 		return fb(c[0]) + "_" + fb(c[1]) + "_" + fb(a)
 	}},
-	{name: "planar.length", readOnly: true, combine: "sum", call: func(g orb.Geometry) string { return fb(planar.Length(g)) }},
+	lengthEntry("planar.length", planar.Length, planar.Distance),
 	distEntry("planar.distfrom", c20Pt),
 	distIdxEntry("planar.distfromidx", c20Pt),
-	{name: "geo.area", readOnly: true, combine: "sum", call: func(g orb.Geometry) string { return fb(geo.Area(g)) }},
-	{name: "geo.length", readOnly: true, combine: "sum", call: func(g orb.Geometry) string { return fb(geo.Length(g)) }},
-	{name: "geo.lengthhav", readOnly: true, combine: "sum", call: func(g orb.Geometry) string { return fb(geo.LengthHaversine(g)) }},
+	{name: "geo.area", readOnly: true, alts: true, combine: "sum", call: func(g orb.Geometry) string { return fb(geo.Area(g)) },
+		// the ring's own exported function: geo.SignedArea, of which geo.Area is the absolute value
+		typed: func(g orb.Geometry) string {
+			if r, ok := g.(orb.Ring); ok {
+				return fb(math.Abs(geo.SignedArea(r)))
+			}
+			return "-"
+		}},
+	lengthEntry("geo.length", geo.Length, geo.Distance),
+	lengthEntry("geo.lengthhav", geo.LengthHaversine, geo.DistanceHaversine),
 	// the deprecated, misspelt twin: must return exactly what LengthHaversine returns
-	{name: "geo.lengthhaversign", readOnly: true, combine: "sum", call: func(g orb.Geometry) string { return fb(geo.LengthHaversign(g)) },
+	{name: "geo.lengthhaversign", readOnly: true, alts: true, combine: "sum", call: func(g orb.Geometry) string { return fb(geo.LengthHaversign(g)) },
 		typed: func(g orb.Geometry) string { return fb(geo.LengthHaversine(g)) }},
 	clipEntry("clip", c20Box),
 	smartEntry("smartclip", c20Box, orb.CCW),
@@ -339,7 +380,11 @@ var c20Entries = []entry{
 		}
 		return us(string(b))
 	}, typed: func(g orb.Geometry) string {
-		return us(`{"type":"Feature","geometry":`) + geojsonMarshal(g) + us(`,"properties":null}`)
+		inner := geojsonMarshal(g)
+		if inner == "err" { // a coordinate JSON cannot write (NaN, ±Inf): the feature fails as its geometry does
+			return "err"
+		}
+		return us(`{"type":"Feature","geometry":`) + inner + us(`,"properties":null}`)
 	}},
 	{name: "geojson.bson", readOnly: true, combine: "", call: func(g orb.Geometry) string {
 		return bytesOut(geojson.NewGeometry(g).MarshalBSON())
@@ -385,12 +430,14 @@ func emptyOfKind(g orb.Geometry) orb.Geometry {
 	return g
 }
 
-// runC20:
+// c20Call (in the worker process; runC20 in c20w.go is the parent's side):
 //
-//	call <entry> <gval>       => generic | typed | unchanged | k member-outcomes…
+//	call <entry> <gval>       => generic | typed | unchanged | k member-outcomes… | alts
+//	                             (alts: `-`, or pairs <relation> <outcome on the neighbouring kind's value>)
+//	                             or hang | crash | hang-aux | crash-aux (watchdog, c20w.go)
 //	callp <entry> <params> <gval> => the same, with non-default parameter values (c20p.go)
 //	eq <gval1> <gval2>        => Equal(g1,g2) Equal(g2,g1) typed unchanged
-func runC20(op string, in []string) string {
+func c20Call(op string, in []string) string {
 	switch op {
 	case "call":
 		return runC20Call(in)
@@ -426,11 +473,18 @@ func runC20CallP(in []string) string {
 }
 
 func runC20Entry(e *entry, gtoks []string) string {
-	parse := func() orb.Geometry { g, _ := parseGeom(gtoks); return g }
+	// every slice of every value handed to the code has spare capacity holding sentinels
+	parse := func() orb.Geometry { g, _ := parseGeom(gtoks); return c20Spare(g) }
 	g := parse()
 	before := gsN(g)
+	snap := c20Snap(g)
 	generic := guard(func() string { return e.call(g) })
-	unchanged := gsN(g) == before
+	if c20GenericOnly {
+		return "genericonly"
+	}
+	// read-only: the serialised value AND everything reachable through the argument's slice headers
+	// (data pointers, lengths, capacities, the spare slots behind len) bit for bit
+	unchanged := gsN(g) == before && sameSnap(c20Snap(g), snap)
 	typed := "-"
 	if e.typed != nil {
 		typed = guard(func() string { return e.typed(parse()) })
@@ -439,7 +493,7 @@ func runC20Entry(e *entry, gtoks []string) string {
 	if c, ok := parse().(orb.Collection); ok && c != nil {
 		ms := []string{}
 		for _, m := range c {
-			m := orb.Clone(m)
+			m := c20Spare(orb.Clone(m))
 			if e.nilMemberAsEmpty && isTypedNil(m) {
 				m = emptyOfKind(m)
 			}
@@ -448,6 +502,18 @@ func runC20Entry(e *entry, gtoks []string) string {
 		parts = append(parts, strings.TrimSpace(fmt.Sprint(len(ms))+" "+strings.Join(ms, " ")))
 	} else {
 		parts = append(parts, "-1")
+	}
+	alts := []string{}
+	if e.alts {
+		for _, a := range c20Alts(parse()) {
+			a := a
+			alts = append(alts, a.rel, guard(func() string { return e.call(c20Spare(a.g)) }))
+		}
+	}
+	if len(alts) == 0 {
+		parts = append(parts, "-")
+	} else {
+		parts = append(parts, strings.Join(alts, " "))
 	}
 	return strings.Join(parts, " | ")
 }
@@ -498,13 +564,17 @@ func runC20Eq(in []string) string {
 	parse := func() (orb.Geometry, orb.Geometry) {
 		a, rest := parseGeom(in)
 		b, _ := parseGeom(rest)
-		return a, b
+		return c20Spare(a), c20Spare(b)
 	}
 	a, b := parse()
 	ba, bb := gsN(a), gsN(b)
+	sa, sb := c20Snap(a), c20Snap(b)
 	g1 := guard(func() string { return b2s(orb.Equal(a, b)) })
 	g2 := guard(func() string { return b2s(orb.Equal(b, a)) })
-	unchanged := gsN(a) == ba && gsN(b) == bb
+	if c20GenericOnly {
+		return "genericonly"
+	}
+	unchanged := gsN(a) == ba && gsN(b) == bb && sameSnap(c20Snap(a), sa) && sameSnap(c20Snap(b), sb)
 	ty := guard(func() string { x, y := parse(); return typedEqual(x, y) })
 	return g1 + " " + g2 + " " + ty + " " + b2s(unchanged)
 }
@@ -692,6 +762,29 @@ func genC20(c *Ctx) {
 			c.Case("call", e.name+" "+gsN(orb.Clone(v)))
 		}
 	}
+	// values with non-finite / huge / tiny / signed-zero coordinates (the quantifier is over ALL geometry
+	// values: it names no coordinate range), alone and beside an ordinary member; tile cover only on the
+	// explicit witnesses (c20TileRisk)
+	specials := c20SpecialLeaves()
+	for _, e := range c20Entries {
+		vs := specials
+		if c20TileEntry(e.name) {
+			vs = c20TileWitnesses(c.Tier)
+		}
+		for _, v := range vs {
+			ws := []orb.Geometry{v, orb.Collection{v, orb.Point{2, 2}}}
+			if c20TileEntry(e.name) {
+				ws = ws[:1]
+			}
+			for _, w := range ws {
+				idx++
+				if !c.Mine(idx) {
+					continue
+				}
+				c.Case("call", e.name+" "+gsN(orb.Clone(w)))
+			}
+		}
+	}
 	idx = genC20Params(c, idx)
 	// orb.Equal on PAIRS: every leaf against every leaf (cross-kind: all 9 x 9 kind pairs, nil
 	// interface and typed nils on either side), against its look-alikes of another kind, against
@@ -726,8 +819,29 @@ func genC20(c *Ctx) {
 			pair(orb.Collection{orb.Collection{a}}, orb.Collection{a})
 		}
 	}
-	// ordinary random values
+	for i, a := range specials {
+		pair(a, a)
+		pair(orb.Collection{a}, orb.Collection{a})
+		if i%3 == 0 {
+			for _, b := range lookalikes(a) {
+				pair(a, b)
+				pair(b, a)
+			}
+			for _, b := range perturb(a) {
+				pair(a, b)
+			}
+		}
+	}
+	// random values: ordinary coordinates mostly; one in five with full-range finite floats or arbitrary
+	// bit patterns (NaN payloads, infinities, -0, subnormals)
 	opts := func() GenOpts {
+		m := []CoordMode{CoordSmallInt, CoordHalf, CoordModest}[c.Rng.Intn(3)]
+		if c.Rng.Intn(5) == 0 {
+			m = []CoordMode{CoordFloat, CoordBits}[c.Rng.Intn(2)]
+		}
+		return GenOpts{Mode: m, MaxPts: 6, MaxDepth: 3, TopNil: true, InnerNil: true}
+	}
+	safeOpts := func() GenOpts {
 		return GenOpts{Mode: []CoordMode{CoordSmallInt, CoordHalf, CoordModest}[c.Rng.Intn(3)], MaxPts: 6, MaxDepth: 3, TopNil: true, InnerNil: true}
 	}
 	for k := 0; k < c.Budget && !c.Exhausted(); k++ {
@@ -760,9 +874,12 @@ func genC20(c *Ctx) {
 		}
 		e := c20Entries[c.Rng.Intn(len(c20Entries))]
 		g := genGeom(c.Rng, opts(), 0)
+		if c20TileEntry(e.name) && c20TileRisk(g, 6) {
+			g = genGeom(c.Rng, safeOpts(), 0)
+		}
 		c.Case("call", e.name+" "+gsN(g))
 	}
-	genC20ParamsRandom(c, opts)
+	genC20ParamsRandom(c, opts, safeOpts)
 }
 
 func isTypedNil(g orb.Geometry) bool {
